@@ -357,6 +357,8 @@ class FnTr:
             return self.assign(s, rest)
         if isinstance(s, ast.For):
             return self.for_stmt(s, rest)
+        if isinstance(s, ast.While):
+            return self.while_stmt(s, rest)
         raise Unsupported(f'`{self.inst.qual}`: statement `{type(s).__name__}`: {ast.unparse(s)[:80]}')
 
     def is_super_init(self, e):
@@ -537,6 +539,8 @@ class FnTr:
             pairs = [(tgt, v)]
         lets = []
         for t, v in pairs:
+            if isinstance(t, ast.Name) and t.id in self.env and self.env[t.id].typ == 'R' and v.typ == 'Int':
+                v = Val(f'({v.text} : Rat)', 'R')       # an int literal assigned to a float variable
             if isinstance(t, ast.Name):
                 if getattr(v, 'raises', False):
                     nm = self.gensym(lname(t.id))
@@ -600,6 +604,75 @@ class FnTr:
             self.pending = pend
             return self.wrap(f'if ({xs.text}).any (fun {x} => {c}) then {self.ok("true" if k else "false")} else\n{_indent(after)}')
         return self.for_general(s, rest, xs)
+
+    def while_stmt(self, s, rest):
+        """`while c: body` (assignments only) as a *fuelled* recursion: an auxiliary definition over a `Nat` fuel and the
+        assigned variables; fuel 0 and a false condition both continue with the code after the loop.  The fuel handed in at
+        the call is the unit's (`hooks['fuel']`): a bound the property proofs show is never exhausted."""
+        if s.orelse:
+            raise Unsupported(f'`{self.inst.qual}`: while/else')
+        assigned = set()
+        for n in ast.walk(ast.Module(body=s.body, type_ignores=[])):
+            if isinstance(n, (ast.Assign, ast.AugAssign, ast.AnnAssign)):
+                for t in (n.targets if isinstance(n, ast.Assign) else [n.target]):
+                    for m in ast.walk(t):
+                        if isinstance(m, ast.Name):
+                            assigned.add(m.id)
+            if isinstance(n, (ast.For, ast.While, ast.Break, ast.Continue, ast.Try, ast.With, ast.Return, ast.Raise)):
+                raise Unsupported(f'`{self.inst.qual}`: `{type(n).__name__}` inside a while body')
+        state = [n for n in self.env if n in assigned]
+        if set(state) != assigned:
+            raise Unsupported(f'`{self.inst.qual}`: while body assigns names that are not defined before the loop')
+        fixed = [n for n in self.env if n not in state and self.env[n].typ != 'None']
+        loop = f'{self.inst.lean}.loop{len(self.aux) + 1}'
+        index = len(self.aux) + 1
+        self.aux.append(None)
+        slot = len(self.aux) - 1
+        fuel_hook = self.u.hooks.get('fuel')
+        fuel_t = fuel_hook(self.inst.qual, index) if fuel_hook else None
+        if not fuel_t:
+            raise Unsupported(f'`{self.inst.qual}`: no fuel declared for while loop {index}')
+        fuel_call = fuel_t.format(**{n: self.env[n].text for n in self.env})
+        ctx = [n for n, _t in self.u.ctx_params]
+        aux = self.sub()
+        aux.fresh = self.fresh
+        aux.narrow = {}
+        fixed_b, state_b = [], []
+        for n in fixed:
+            nm = aux.gensym(lname(n))
+            fixed_b.append((nm, self.env[n].typ))
+            aux.env[n] = Val(nm, self.env[n].typ, path=n)
+        for n in state:
+            nm = aux.gensym(lname(n))
+            state_b.append((nm, self.env[n].typ))
+            aux.env[n] = Val(nm, self.env[n].typ, path=n)
+        fuel = aux.gensym('fuel')
+        after_tr = aux.sub()
+        after_tr.fresh = aux.fresh
+        after_tr.on_fall = self.on_fall
+        after = after_tr.block(rest)
+        body_tr = aux.sub()
+        body_tr.fresh = after_tr.fresh
+        cond = body_tr.truth(body_tr.expr(s.test))
+        if body_tr.pending:
+            raise Unsupported(f'`{self.inst.qual}`: a call that may raise in a while test')
+
+        def again(tr):
+            return ' '.join([loop] + ctx + [tr.env[n].text for n in fixed] + [fuel] + [_paren(tr.env[n].text) for n in state])
+        body_tr.on_fall = again
+        body = body_tr.block(list(s.body))
+        self.fresh = body_tr.fresh
+        binders = ' '.join([f'({n} : {t})' for n, t in self.u.ctx_params] + [f'({n} : {lean_type(t)})' for n, t in fixed_b])
+        sig = ' → '.join(['Nat'] + [lean_type(t) for _n, t in state_b] + [lean_type(self.inst.ret)])
+        pat = ''.join(f', {n}' for n, _t in state_b)
+        self.aux[slot] = '\n'.join([
+            f'/-- the `while {ast.unparse(s.test)}` loop of `{self.inst.qual}` (fuelled): state ' + ', '.join(state) + ' -/',
+            f'def {loop} {binders} : {sig}',
+            f'  | 0{pat} =>', _indent(after, 4),
+            f'  | {fuel} + 1{pat} =>',
+            f'    if {cond} then', _indent(body, 6), '    else', _indent(after, 6)])
+        args = [self.env[n].text for n in fixed] + [_paren(fuel_call)] + [_paren(self.env[n].text) for n in state]
+        return self.wrap(' '.join([loop] + ctx + args))
 
     def for_general(self, s, rest, xs):
         """A loop with state: an auxiliary structural recursion over the list.  Its parameters are every variable in
@@ -761,7 +834,7 @@ class FnTr:
             return Val(f'(!{self.truth(self.expr(e.operand))})', 'Bool')
         if isinstance(e, ast.UnaryOp) and isinstance(e.op, ast.USub):
             v = self.expr(e.operand)
-            if v.typ in ('Int', 'Td'):
+            if v.typ in ('Int', 'Td', 'R'):
                 return Val(f'(-{v.text})', v.typ)
         if isinstance(e, ast.IfExp):
             st = self.static_test(e.test)
@@ -964,6 +1037,13 @@ class FnTr:
                 raise Unsupported(f'zip of {a.typ}, {b.typ}')
             if f.id == 'cast' and len(e.args) == 2:
                 return self.expr(e.args[1])
+            if f.id == 'float' and len(e.args) == 1:
+                v = self.expr(e.args[0])
+                if v.typ == 'R':
+                    return v              # floats are exchanged as exact rationals
+                if v.typ == 'Int':
+                    return Val(f'({v.text} : Rat)', 'R')
+                raise Unsupported(f'float() of {v.typ}')
             if f.id == 'hash' and len(e.args) == 1:
                 return self.expr(e.args[0])           # the value handed to hash()
             if f.id == 'set' and not e.args:
